@@ -125,18 +125,33 @@ def r16_2(ctx):
     fa = idx.func("ILOpsHolder.add_hybrid")
     stores = sorted(U(n.targets[0]) for n in ast.walk(fa.node) if isinstance(n, ast.Assign))
     ctx.check("hybrids are registered as exec and write operand", stores == ["self.exec_ops[hybrid.get_name()]", "self.write_ops[hybrid.get_name()]"], "exec_ops and write_ops", str(stores), fn_where(idx, fa))
-    # dependency walk covers PureExec operands transitively and nested effects
+    exec_dependency_walk(ctx)
+
+
+def exec_dependency_walk(ctx):
+    """Effect.get_exec_op_list: the operations an effect needs declared in front of it are found transitively - below operations,
+    below nested effects (a BRANCH a hybrid emits inline is registered nowhere else) and below hybrids, at every depth"""
+    idx = get_index(ctx.env)
     fg = idx.func("Effect.get_exec_op_list")
+
     def once(i):
         x = AObj("Pure", {}, label="x", opaque=True)
         p2 = AObj("PureExec", {"ops": [x]}, label="p2")
         p1 = AObj("PureExec", {"ops": [p2, x]}, label="p1")
-        p3 = AObj("PureExec", {"ops": []}, label="p3")
-        inner = AObj("Effect", {"effect_ops": [p3]}, label="inner")
-        return i.call_function(fg, [], self_obj=AObj("Effect", {"effect_ops": [x, p1, inner]}, label="self"))
+        p4 = AObj("PureExec", {"ops": [x]}, label="p4")
+        p3 = AObj("PureExec", {"ops": [p4]}, label="p3")
+        p6 = AObj("PureExec", {"ops": []}, label="p6")
+        p5 = AObj("PureExec", {"ops": [p6]}, label="p5")
+        deep = AObj("Effect", {"effect_ops": [p5]}, label="deep")
+        inner = AObj("Effect", {"effect_ops": [p3, deep]}, label="inner")
+        p8 = AObj("PureExec", {"ops": []}, label="p8")
+        p7 = AObj("PureExec", {"ops": [p8]}, label="p7")
+        hyb = AObj("Hybrid", {"effect_ops": [p7], "ops": [p7]}, label="hyb")
+        return i.call_function(fg, [], self_obj=AObj("Effect", {"effect_ops": [x, p1, inner, hyb]}, label="self"))
     outs = Interp(idx).explore(once)
     got = [[getattr(v, "label", v) for v in o.value] if o.kind == "return" else str(o.value) for o in outs]
-    ctx.check("dependency walk: PureExec operands transitively (outer first), nested effects, starting from effect_ops", got == [["p1", "p2", "p3"]], "['p1', 'p2', 'p3']", str(got), fn_where(idx, fg))
+    exp = ["p1", "p2", "p3", "p4", "p5", "p6", "hyb", "p7", "p8"]  # a hybrid is an operation itself
+    ctx.check("dependency walk: PureExec operands transitively (outer first), below nested effects and hybrids at every depth, starting from effect_ops", got == [exp], str(exp), str(got), fn_where(idx, fg))
 
 
 @rule("R16.3", "C16", "what the statement layout walks (effect_ops) stays in step with the operands: src/dest are re-bound only through the setters; every created node is registered", min_instances=10)
@@ -218,3 +233,52 @@ def r16_4(ctx):
         return [i.call_function(fg, [], self_obj=h), i.call_function(fg, [], self_obj=h)]
     outs = Interp(idx).explore(once)
     ctx.check("creation ids are consecutive integers from one counter", [o.value for o in outs] == [[3, 4]], "[3, 4]", str([o.value for o in outs]), fn_where(idx, fg))
+
+
+# emission-time stores of one node into ANOTHER node that emission reads back, reviewed: (writer, attribute) -> why it is layout-neutral
+REVIEWED_CROSS_NODE_EMISSION_STATE = {
+    ("Assignment.il_write", "assign_usage"): "an immediate that is the source of an assignment is read inside that very il_write call, right after the store; "
+                                             "Immediate.il_read clears the flag again before it returns, so no other emission observes it",
+}
+
+
+@rule("R16.5", "C16", "emission is local: printing one node (il_read / il_write / il_exec / il_init_var ...) never stores into another node something the printing of a node reads - the layouts print in different orders", min_instances=1)
+def r16_5(ctx):
+    idx = get_index(ctx.env)
+    emit_roots = [f for q, f in idx.funcs.items() if f.cls == "RZILTransformer" and f.name.startswith("emit_")]
+    ctx.need(len(emit_roots) >= 4, "emission functions (emit_*) not found")
+    closure = {q: f for q, f in idx.reachable(emit_roots).items() if f.cls and f.cls != "RZILTransformer" and "Transformer" in str(f.path or "")}
+    ctx.need(len(closure) >= 60, f"emission closure too small ({len(closure)} methods)")
+    # attributes the emission closure reads
+    reads = {}
+    for q, f in closure.items():
+        for n in ast.walk(f.node):
+            if isinstance(n, ast.Attribute) and isinstance(n.ctx, ast.Load):
+                reads.setdefault(n.attr, set()).add(q)
+    found = 0
+    for q, f in sorted(closure.items()):
+        for n in ast.walk(f.node):
+            tg = n.targets if isinstance(n, ast.Assign) else [n.target] if isinstance(n, (ast.AugAssign, ast.AnnAssign)) else []
+            for t in tg:
+                for tt in (t.elts if isinstance(t, (ast.Tuple, ast.List)) else [t]):
+                    if isinstance(tt, ast.Subscript):
+                        tt = tt.value
+                    if not isinstance(tt, ast.Attribute):
+                        continue
+                    base = U(tt.value)
+                    if base == "self":
+                        continue  # the node's own bookkeeping (read counters, init counters)
+                    readers = sorted(reads.get(tt.attr, ()))
+                    if not readers:
+                        continue
+                    found += 1
+                    why = REVIEWED_CROSS_NODE_EMISSION_STATE.get((q, tt.attr))
+                    ctx.check(f"{q} stores {base}.{tt.attr}", why is not None, "no store into another node that emission reads (or a reviewed one)",
+                              f"{U(n)[:60]}; read during emission by {readers[:3]}: what is printed for those depends on whether this node was printed before - "
+                              f"the statement layout prints effects between the operations, the block layout prints all operations first" if why is None else f"reviewed: {why[:80]}",
+                              fn_where(idx, f))
+    ctx.check("reviewed cross-node emission stores still present", found >= 1, ">= 1 (Assignment.il_write -> Immediate.assign_usage)", str(found), "rzilcompiler/Transformer/Effects/Assignment.py", nontrivial=False)
+    # the reviewed entry's justification, checked: Immediate.il_read clears assign_usage on the path that saw it set
+    fi = idx.func("Immediate.il_read")
+    clears = [U(n) for n in ast.walk(fi.node) if isinstance(n, ast.Assign) and U(n.targets[0]) == "self.assign_usage" and isinstance(n.value, ast.Constant) and n.value.value is False]
+    ctx.check("Immediate.il_read clears assign_usage after it consumed it", bool(clears), "self.assign_usage = False", str(clears), fn_where(idx, fi))
